@@ -6,6 +6,7 @@ import (
 	"github.com/makiuchi-d/gozxing"
 	"github.com/makiuchi-d/gozxing/common/util"
 	"github.com/makiuchi-d/gozxing/oned"
+	"github.com/makiuchi-d/gozxing/verifhook"
 )
 
 // Decodes RSS-14, including truncated and stacked variants. See ISO/IEC 24724:2006.
@@ -55,6 +56,7 @@ func (this *rss14Reader) DecodeRow(rowNumber int, row *gozxing.BitArray, hints m
 	rightPair := this.decodePair(row, true, rowNumber, hints)
 	this.possibleRightPairs = this.addOrTally(this.possibleRightPairs, rightPair)
 	row.Reverse()
+	verifhook.Touch("rss14.row", [2]*Pair{leftPair, rightPair}, true)
 	for _, left := range this.possibleLeftPairs {
 		if left.GetCount() > 1 {
 			for _, right := range this.possibleRightPairs {
@@ -86,6 +88,7 @@ func (this *rss14Reader) addOrTally(possiblePairs []*Pair, pair *Pair) []*Pair {
 }
 
 func (this *rss14Reader) Reset() {
+	verifhook.Touch("rss14.reset", this, true)
 	this.possibleLeftPairs = this.possibleLeftPairs[:0]
 	this.possibleRightPairs = this.possibleRightPairs[:0]
 }
